@@ -245,4 +245,21 @@ def run(repo, tier):
     res.exhaustive_rules = ['L1 over (normalize|unnormalize|other public entries) x lazyproperties of the three profile classes']
     from .common import run_clone_pairs
     run_clone_pairs(repo, res, {m for m in repo.modules if m.startswith('photutils.profiles') and '.tests' not in m})
+    # getters of the profile classes modify no stored array in place (a second read after normalize/unnormalize must see raw values)
+    from .C10 import get_alias
+    d_, _ft = get_alias(repo)
+    for c_ in repo.classes.values():
+        if c_.module.name not in ('photutils.profiles.core', 'photutils.profiles.radial_profile', 'photutils.profiles.curve_of_growth'):
+            continue
+        for fs_ in c_.methods.values():
+            for f_ in fs_:
+                if not (f_.is_property and not f_.is_setter):
+                    continue
+                sm_ = d_.summary(f_)
+                bad_ = [(fld, s_) for fld, sites in sm_.mutf.items() for s_ in sites.values()]
+                res.oblige('A2', f'getter {f_.qualname} modifies no stored array in place', not bad_, nontrivial=True)
+                for fld, s_ in bad_:
+                    res.add(Finding('A2', s_.finfo.fullname, norm_stmt_text(s_.stmt), s_.loc,
+                                    f'evaluating {f_.qualname} modifies the object stored in `self.{fld}` in place ({s_.describe()}): '
+                                    f'every later read (after normalize/unnormalize) starts from the already rescaled values', {}))
     return res
